@@ -113,10 +113,19 @@ XVerdict(e) ==
 JEmb(s, d) == IF d = 1 THEN Scalar(s) ELSE Embed(s, d, 1)
 JLen(e) == Min2(Len(JEmb(e.x, e.dx)), Len(JEmb(e.y, e.dy)))
 JTraj(e, s, d) == SubSeq(JEmb(s, d), 1, JLen(e))
-JRec(e, T, metric, pn, pd) ==
+\* (mode tstd: the threshold is pn/pd times the standard deviation of the WHOLE series s as given; a pair exactly at
+\* the threshold is marked 2 - the floating-point comparison may go either way)
+JRec(e, T, s, metric, pn, pd) ==
   IF e.mode = "thr" THEN RecFixed(metric, T, T, Zeros(Len(T)), Zeros(Len(T)), 1, pn, pd)
+  ELSE IF e.mode = "tstd" THEN RecStd(metric, T, s, pn, pd)
   ELSE RecRate(metric, T, T, pn, pd)
-ExpJR(e) == Joint(JRec(e, JTraj(e, e.x, e.dx), e.mx, e.p1n, e.p1d), JRec(e, JTraj(e, e.y, e.dy), e.my, e.p2n, e.p2d), e.lag)
+JointTie(RX, RY, lag) ==
+  LET n == Len(RX)  a == Abs(lag)
+      C(u, v) == IF u = 0 \/ v = 0 THEN 0 ELSE IF u = 1 /\ v = 1 THEN 1 ELSE 2
+  IN [p \in 1..(n - a) |-> [q \in 1..(n - a) |->
+       IF lag >= 0 THEN C(RX[p][q], RY[p + a][q + a]) ELSE C(RY[p][q], RX[p + a][q + a])]]
+ExpJR(e) == JointTie(JRec(e, JTraj(e, e.x, e.dx), e.x, e.mx, e.p1n, e.p1d),
+                     JRec(e, JTraj(e, e.y, e.dy), e.y, e.my, e.p2n, e.p2d), e.lag)
 JTags(e) == "j," \o e.mode \o (IF e.lag # 0 THEN ",lag" ELSE "")
             \o (IF JLen(e) - Abs(e.lag) = 1 THEN ",single_state" ELSE "")
             \o (IF e.dx + e.dy > 2 THEN ",embedded" ELSE "") \o (IF e.mx # e.my THEN ",two_metrics" ELSE "")
@@ -124,7 +133,7 @@ JOne(e, o, name, net) ==
   LET n == JLen(e) - Abs(e.lag) IN
   IF o.exc # "" THEN <<"Applicable", name \o ":" \o o.exc>>
   ELSE IF ~SquareOf(o.JR, n) THEN <<"Sizes", name \o ".JR">>
-  ELSE IF o.JR # ExpJR(e) THEN <<"Composition", name \o ".recurrence_matrix">>
+  ELSE IF ~AgreesUpToTies(o.JR, ExpJR(e)) THEN <<"Composition", name \o ".recurrence_matrix">>
   ELSE IF o.N # n THEN <<"Sizes", name \o ".N">>
   ELSE IF net /\ o.adj # NoDiag(o.JR) THEN <<"NetDef", name \o ".adjacency">>
   ELSE IF ~LinesOK(o.lines, o.JR, Zeros(n)) THEN <<"RQAApplicable", name \o ":" \o o.lines.exc>>
